@@ -211,6 +211,24 @@ def hyper_obligations(col, it, umat, label, cls, has_function=True, out_variants
             r = it.call_method(umat, "hessian", [[F, sv]], dict(out=buf))[0]
             return same_arrays(r, A_) and same_arrays(F, F0), "hessian(out=dirty buffer) differs from hessian() or input modified"
         col.check("C03.O1o", "%s.hessian out=" % label, "a supplied (dirty) out buffer yields the same elasticity", h_out)
+
+        def nan_out():
+            # the buffers a solid body re-uses hold NaN after one evaluation at a diverged iterate: 0 * NaN is NaN, so a buffer has to be
+            # *overwritten*, not scaled by zero (floating-point array semantics: IEEE mode of the ring)
+            ring.IEEE[0] = True
+            try:
+                nan = ring._nan_poly()
+                bufg = np.empty(P_.shape, dtype=object)
+                bufg[...] = nan
+                bufh = np.empty(A_.shape, dtype=object)
+                bufh[...] = nan
+                rg = it.call_method(umat, "gradient", [[F, sv]], dict(out=bufg))[0]
+                rh = it.call_method(umat, "hessian", [[F, sv]], dict(out=bufh))[0]
+                okg, okh = same_arrays(rg, P_), same_arrays(rh, A_)
+            finally:
+                ring.IEEE[0] = False
+            return okg and okh, "%s: a buffer that holds NaN gives %s" % (wh if okg else wg, "the right stress but a NaN elasticity" if okg else "a NaN stress")
+        col.check("C03.O1o", "%s out= buffers holding NaN" % label, "a supplied out buffer is overwritten whatever it holds (a buffer left with NaN by an earlier, diverged evaluation gives the same stress and elasticity)", nan_out)
     history_obligation(col, it, umat, label, cls, [F, sv], [Fsym(name="G") if shape is None else Fsym(shape[0], dim2=shape[1], name="G"), sv], ngrad=1)
     return F, P_, A_
 
@@ -716,6 +734,24 @@ def run_composite(col):
                     method_where(cls, "gradient"), [ring.fmt(P(v), 2) for v in np.asarray(g2[1]).reshape(-1)], [ring.fmt(P(v), 2) for v in np.asarray(za).reshape(-1)]))
     col.add("C03.O8", "CompositeMaterial.hessian", "sum of both materials' elasticity tensors", same_arrays(h[0], Aa + Ab) and len(h) == 1)
     check_tensor_derivative(col, "C03.O8", "CompositeMaterial.hessian", method_where(cls, "hessian"), "hessian == d gradient/dF", g[0], h[0], F, 2)
+    # felupe's own materials with out= support merged (NeoHooke & Volumetric): a supplied buffer must not be shared by the two materials
+    nh = it.call(it.get("felupe.constitution.hyperelasticity._neo_hooke_nearly_incompressible:NeoHooke"), [], dict(mu=sym("mu", True)))
+    vol = it.call(it.get("felupe.constitution.hyperelasticity._volumetric:Volumetric"), [], dict(bulk=sym("bulk", True)))
+    um3 = it.call(cls, [], dict(material=nh, other_material=vol))
+    sv0 = npmodel.zeros((0, 1, 1))
+    g3 = it.call_method(um3, "gradient", [[F, sv0]])
+    h3 = it.call_method(um3, "hessian", [[F, sv0]])
+    check_tensor_derivative(col, "C03.O8", "CompositeMaterial(NeoHooke & Volumetric).hessian", method_where(cls, "hessian"), "hessian == d gradient/dF", g3[0], h3[0], F, 2)
+
+    def g_out():
+        r = it.call_method(um3, "gradient", [[F, sv0]], dict(out=symarray("DIRTY", (3, 3, 1, 1))))[0]
+        return same_arrays(r, g3[0]), "%s: gradient(out=buffer) differs from gradient()" % method_where(cls, "gradient")
+    col.check("C03.O1o", "CompositeMaterial(NeoHooke & Volumetric).gradient out=", "a supplied out buffer yields the same stress as no buffer (the merged materials must not both write their result into it)", g_out)
+
+    def h_out():
+        r = it.call_method(um3, "hessian", [[F, sv0]], dict(out=symarray("DIRTY", (3, 3, 3, 3, 1, 1))))[0]
+        return same_arrays(r, h3[0]), "%s: hessian(out=buffer) differs from hessian()" % method_where(cls, "hessian")
+    col.check("C03.O1o", "CompositeMaterial(NeoHooke & Volumetric).hessian out=", "a supplied out buffer yields the same elasticity as no buffer", h_out)
     finish_info(col, it)
 
 
